@@ -158,11 +158,19 @@ func (c *compressor) writeBlock() {
 	c.next = 0
 
 	b := c.buf.Bytes()
-	i := bytes.Index(b, bgzfExtraPrefix)
+	// The BGZF subfield is the first in the extra field, which follows
+	// the fixed gzip header (10 bytes) and XLEN (2 bytes). Searching from
+	// the start of the member can match MTIME/XFL/OS bytes instead.
+	const extraStart = 12
+	i := -1
+	if len(b) > extraStart {
+		i = bytes.Index(b[extraStart:], bgzfExtraPrefix)
+	}
 	if i < 0 {
 		c.err = gzip.ErrHeader
 		return
 	}
+	i += extraStart
 	size := len(b) - 1
 	if size >= MaxBlockSize {
 		c.err = ErrBlockOverflow
